@@ -97,6 +97,16 @@ class DBase:
 class DecoratedFromDecorated(DBase):
     c: int = 0
 
+# not decorated, own generated __init__: the inherited __new__ / __setattr__ still track (every field
+# assigned by the constructor counts as set: pinned test test_fields_set), exclude_unset still applies
+@dataclass
+class UndecoratedDerived(DBase):
+    c: int = 0
+
+# not decorated, no __init__ of its own: the tracked constructor of the base is inherited
+class InheritsInit(DBase):
+    pass
+
 @with_fields_set
 @dataclass
 class Aliased:
@@ -153,6 +163,8 @@ POOL: Dict[str, dict] = {
     "PostInitAssign": dict(params=[("a", False, None), ("b", True, 0), ("c", True, 0)], post={"c": 5}),
     "DecoratedDerived": dict(params=[("a", False, None), ("b", True, 0), ("c", True, 0)]),
     "DecoratedFromDecorated": dict(params=[("a", False, None), ("b", True, 0), ("c", True, 0)]),
+    "UndecoratedDerived": dict(params=[("a", False, None), ("b", True, 0), ("c", True, 0)], init_sets_all=True),
+    "InheritsInit": dict(params=[("a", False, None), ("b", True, 0)]),
     "Aliased": dict(params=[("a_b", False, None), ("c", True, 0), ("d", True, None)], aliases={"a_b": "x", "c": "see"}),
     # every field defaulted: instances can be built without any argument
     "AllDefaults": dict(params=[("a", True, 0), ("b", True, 0), ("c", True, None)], always={"b"}),
@@ -183,6 +195,9 @@ class Model:
         for k, v in spec.get("post", {}).items():
             self.values[k] = v  # assignment inside __post_init__ is construction, not tracked
         self.set = ({k for k in kwargs} - set(spec.get("initvars", ()))) | set(spec.get("always", ()))
+        if spec.get("init_sets_all"):
+            # the constructor is not the tracked one: each of its assignments goes through the tracked __setattr__
+            self.set = set(self.values)
 
     def fields(self) -> List[str]:
         return list(self.values)
